@@ -139,56 +139,77 @@ def contText (python : Bool) (comment : Str) (org : Str) : Str :=
   | some l => if l == NL then o.dropLast else o
   | none => o
 
+/-- The line from its first non-blank byte on: cut at the first NUL (C string), one trailing
+    newline removed, leading blanks skipped. -/
+def lineBody (raw : Str) : Str :=
+  let org := cstr raw
+  let buf := match org.getLast? with
+    | some l => if l == NL then org.dropLast else org
+    | none => org
+  buf.dropWhile isSpace
+
+/-- Split `name` (no leading blanks, comments removed) at the end of the key: the key, whether the
+    byte right after it is a delimiter ("delimiter seen"), and the text after that byte. -/
+def splitKey (delim : Str) (name : Str) : Str × Bool × Str :=
+  let isSep := fun (c : Byte) => isSpace c || delim.contains c
+  let key := name.takeWhile (fun c => !isSep c)
+  let rest := name.dropWhile (fun c => !isSep c)
+  match key, rest with
+  | _ :: _, d :: ds =>
+    (key, (if mixedDelim delim then !isSpace d && delim.contains d else delim.contains d), ds)
+  | _, _ => (key, false, rest)
+
+/-- does the last entry end on the line before the current one (`st.line`)? -/
+def lastEntryOnPrevLine (st : PState) : Bool :=
+  match st.entries.getLast? with
+  | some e => e.line + 1 == st.line
+  | none => false
+
+/-- Is the line a continuation of the previous entry?  (`st.line` is this line's number.) -/
+def isContinuation (cfg : Cfg) (st : PState) (org : Str) (delimSeen : Bool) (data : Str) : Bool :=
+  let orgIndented := match org with
+    | o :: _ => isSpace o
+    | [] => false
+  let found :=
+    if !cfg.python || !orgIndented then delimSeen || data.any cfg.delim.contains else false
+  !mixedDelim cfg.delim && !found && lastEntryOnPrevLine st
+
+/-- A `key delimiter value` line or a continuation line (delimiters are defined). -/
+def parseEntry (cfg : Cfg) (st : PState) (org name : Str) : Except Err PState :=
+  let (key, delimSeen, data) := splitKey cfg.delim name
+  if isContinuation cfg st org delimSeen data then
+    .ok (storeAppend cfg.python st (contText cfg.python cfg.comment org))
+  else if key.isEmpty then .ok st            -- line starts with a delimiter
+  else
+    match parseValue cfg.delim delimSeen data with
+    | .error e => .error e
+    | .ok (v, q) => .ok (storeNew st key v q)
+
+/-- The line after the comment scan: section header, key without value, or entry. -/
+def parseContent (cfg : Cfg) (st : PState) (org name : Str) : Except Err PState :=
+  match name with
+  | [] => .ok st                               -- cannot happen: the first byte is kept
+  | m0 :: mrest =>
+    if m0 == LBR then
+      match parseSection mrest with
+      | .error e => .error e
+      | .ok sect => .ok { st with curGroup := some sect, groups := addGroup st.groups sect }
+    else if noDelim cfg.delim then
+      .ok (storeNew st name none false)
+    else parseEntry cfg st org name
+
 /-- One physical line (`raw` includes its `\n`, if any). -/
 def parseLine (cfg : Cfg) (st : PState) (raw : Str) : Except Err PState :=
   let org := cstr raw
   let st := { st with line := st.line + 1 }
-  let buf := match org.getLast? with
-    | some l => if l == NL then org.dropLast else org
-    | none => org
-  let name := buf.dropWhile isSpace
-  match name with
+  match lineBody raw with
   | [] => .ok st                                   -- empty line or blanks only
   | n0 :: nrest =>
     if cfg.comment.contains n0 then
       .ok { st with cb := appendComment st.cb nrest }   -- whole line is a comment
     else
-      let (name, ca) := scanComments cfg.python cfg.comment name st.ca
-      let st := { st with ca := ca }
-      match name with
-      | [] => .ok st                               -- cannot happen: the first byte is kept
-      | m0 :: mrest =>
-        if m0 == LBR then
-          match parseSection mrest with
-          | .error e => .error e
-          | .ok sect => .ok { st with curGroup := some sect, groups := addGroup st.groups sect }
-        else if noDelim cfg.delim then
-          .ok (storeNew st name none false)
-        else
-          let isSep := fun (c : Byte) => isSpace c || cfg.delim.contains c
-          let key := name.takeWhile (fun c => !isSep c)
-          let rest := name.dropWhile (fun c => !isSep c)
-          let (delimSeen, data) :=
-            match key, rest with
-            | _ :: _, d :: ds =>
-              (if mixedDelim cfg.delim then !isSpace d && cfg.delim.contains d else cfg.delim.contains d, ds)
-            | _, _ => (false, rest)
-          let orgIndented := match org with
-            | o :: _ => isSpace o
-            | [] => false
-          let found :=
-            if !cfg.python || !orgIndented then delimSeen || data.any cfg.delim.contains else false
-          let isCont := !mixedDelim cfg.delim && !found &&
-            (match st.entries.getLast? with
-             | some e => e.line + 1 == st.line
-             | none => false)
-          if isCont then
-            .ok (storeAppend cfg.python st (contText cfg.python cfg.comment org))
-          else if key.isEmpty then .ok st            -- line starts with a delimiter
-          else
-            match parseValue cfg.delim delimSeen data with
-            | .error e => .error e
-            | .ok (v, q) => .ok (storeNew st key v q)
+      let (name, ca) := scanComments cfg.python cfg.comment (n0 :: nrest) st.ca
+      parseContent cfg { st with ca := ca } org name
 
 /-- Left fold over the lines, stopping at the first error; the state at the error is
     returned as well (its `line` is the number of the offending line). -/
